@@ -283,8 +283,8 @@ theorem findOne_scan4 (s : Str) (h : ScanOk4 s) (t : STok) (ht : inertClass t = 
   | lineBreak => exact absurd rfl hlb
   | math => cases ht
   | githubWiki => cases ht
-  | xwikiMacroStart => rfl
-  | xwikiMacroEnd => rfl
+  | xwikiMacroStart => cases ht
+  | xwikiMacroEnd => cases ht
 
 theorem findAll_gen4 (s : Str) (types : List STok) (fn : Footnotes.Table) (ht : ∀ t ∈ types, inertClass t = true)
     (hs : ScanOk4 s) (hcore : findCoreTokens s fn = .ok ([], [])) (hnl : '\n' ∉ s) : findAll s types fn = .ok [] := by
